@@ -564,3 +564,82 @@ func TestReplay_BuildFailureKeepsItsCause(t *testing.T) {
 		t.Errorf("REPLAY-CONFIRMED collection.doBuild#post[failed_singleton_phase_is_classifiable]: the constructor's own error is not reachable from the Build error when cleanup fails too: %v", err)
 	}
 }
+
+type rbPick struct{ tag string }
+type rbPickOut struct {
+	Out
+	Plain   *rbPick
+	Grouped *rbPick `group:"rb-picks"`
+}
+
+// scope.createInstance#assert[returned_value_is_what_was_stored_for_this_registration]: resolving the plain field of a result object
+// that also has a later group field of the same type yields the plain field's value.
+func TestReplay_ResultObjectPlainFieldNextToGroupField(t *testing.T) {
+	for _, lt := range []Lifetime{Scoped, Transient} {
+		c := NewCollection()
+		ctor := func() rbPickOut { return rbPickOut{Plain: &rbPick{"plain"}, Grouped: &rbPick{"grouped"}} }
+		var err error
+		if lt == Scoped {
+			err = c.AddScoped(ctor)
+		} else {
+			err = c.AddTransient(ctor)
+		}
+		if err != nil {
+			t.Fatal(err)
+		}
+		p, err := c.Build()
+		if err != nil {
+			t.Fatal(err)
+		}
+		sc, _ := p.CreateScope(context.Background())
+		v, err := Resolve[*rbPick](sc)
+		if err != nil || v == nil || v.tag != "plain" {
+			t.Errorf("REPLAY-CONFIRMED scope.createInstance#assert[returned_value_is_what_was_stored_for_this_registration]: %v: resolving the plain field gave %v (err %v), want the plain field's value", lt, v, err)
+		}
+		sc.Close()
+		p.Close()
+	}
+}
+
+type rbOrphan struct{ closed int }
+
+func (o *rbOrphan) Close() error { o.closed++; return nil }
+
+type rbKept struct{}
+
+// scope.createInstance#post[unstored_outputs_are_still_owned]: an output whose registration was removed is not resolvable any more, but
+// the constructor still produces it: it has to be disposed with its owner like every other instance the container created.
+func TestReplay_RemovedOutputIsStillDisposed(t *testing.T) {
+	for _, lt := range []Lifetime{Scoped, Singleton} {
+		var made *rbOrphan
+		c := NewCollection()
+		ctor := func() (*rbKept, *rbOrphan) { made = &rbOrphan{}; return &rbKept{}, made }
+		var err error
+		if lt == Scoped {
+			err = c.AddScoped(ctor)
+		} else {
+			err = c.AddSingleton(ctor)
+		}
+		if err != nil {
+			t.Fatal(err)
+		}
+		c.Remove(reflect.TypeOf((*rbOrphan)(nil)))
+		p, err := c.Build()
+		if err != nil {
+			t.Fatal(err)
+		}
+		sc, _ := p.CreateScope(context.Background())
+		if _, err := Resolve[*rbKept](sc); err != nil {
+			t.Fatal(err)
+		}
+		sc.Close()
+		p.Close()
+		if made == nil || made.closed != 1 {
+			n := -1
+			if made != nil {
+				n = made.closed
+			}
+			t.Errorf("REPLAY-CONFIRMED scope.createInstance#post[unstored_outputs_are_still_owned]: %v: the output whose registration was removed was closed %d times after scope and provider were closed, want 1", lt, n)
+		}
+	}
+}
